@@ -24,6 +24,39 @@ def both_sems(jobs):
         out.append(Job('c-binsem', j.family, j.program, j.P, j.E, j.flags, j.defs, None, j.note))
     return out
 
+# ---------------------------------------------------------------- helpers
+def J_(cfg, fam, triples, flags=()):
+    return [Job(cfg, fam, p, P, E, flags) for (p, P, E) in triples]
+
+def dedupe(jobs):
+    seen, out = set(), []
+    for j in jobs:
+        k = j.key()
+        if k not in seen:
+            seen.add(k); out.append(j)
+    return out
+
+def generic(prop, tier, jobs, note, sample_every=25, level='model_checking', extra_cov=None):
+    t0 = time.time()
+    jobs = dedupe(jobs)
+    res, skipped = mcdriver.run_jobs(jobs, wall(tier), sample_every=sample_every)
+    return mcdriver.finish(prop, tier, level, res, skipped, t0, assumptions=ASSUME_MC, technique_note=note, extra_cov=extra_cov)
+
+# ---------------------------------------------------------------- C01
+def run_C01(tier):
+    q = tier == 'quick'
+    J = []
+    for p in progs.mu_programs(2, 2): J.append(Job('c-futex', 'mu', p, 3 if q else 6, 0))
+    for p in progs.mu_programs(3, 1): J.append(Job('c-futex', 'mu', p, 2 if q else 3, 0))
+    for p in progs.mu_programs(4, 1): J.append(Job('c-futex', 'mu', p, 1 if q else 2, 0))
+    J += J_('c-futex', 'cv', [(p, P, E) for (p, P, E) in progs.cv_c04('quick') if q or True][:: (2 if q else 1)])
+    J += J_('c-futex', 'cv', progs.cv_c05('quick')[:: (2 if q else 1)])
+    J += J_('c-futex', 'muwait', progs.mw_c06('quick')[:: (2 if q else 1)])
+    J += J_('c-futex', 'muwait', progs.mw_c05('quick')[:: (2 if q else 1)])
+    J += J_('c-futex', 'waitn', [t for t in progs.waitn_c11('quick') if 'v' in t[0].split('|')[0]])
+    return generic('C01', tier, both_sems(J),
+        'DFS over scheduler / clock choices of the real mu.c, mu_wait.c, cv.c, wait.c; oracle: shadow occupancy (harness level at every acquire/return-from-wait, and at nsync\'s own AnnotateRWLockAcquired points) asserted at every entry')
+
 # ---------------------------------------------------------------- C02
 def jobs_mu(tier):
     J = []
@@ -57,7 +90,124 @@ def run_C12(tier):
     return mcdriver.finish('C12', tier, 'model_checking', res, skipped, t0, assumptions=ASSUME_MC,
         technique_note='complete interleaving exploration (no preemption bound) of nsync_semaphore_futex.c with one waiter and 1-3 posters, every placement of up to k injected EINTR/EAGAIN/early-ETIMEDOUT returns and clock ticks (k = E budget)')
 
+
+# ---------------------------------------------------------------- C03
+HB_CFGS = ['c-futex', 'c11-futex', 'cpp-futex']
+def hb_programs(tier):
+    q = tier == 'quick'
+    P2 = 2 if q else 3
+    L = []
+    # unlock/runlock -> lock/rlock, fast and slow paths, late arrivals that never sleep
+    for p in ['L|L', 'L|R', 'R|L', 'L L|L', 'L|L|L', 'L|R|R', 'L|L|R', 'R|R|L', 'T|L', 'Y|L', 'L T|L', 'L X L|L']:
+        L.append(('mu', p, P2 if p.count('|') == 2 else (4 if q else 6), 0))
+    # blocking in a wait releases; signal -> woken waiter
+    for p in ['Ww|@1 S', "Ww|@1 S'", 'Wr|@1 S', 'Wg|@1 S', 'Wn|@1 S', 'Ww|@1 B', 'Ww|S', 'Ww|Ww|@2 B', 'Ww|Wr|@2 S', 'Ww|L|@1 S', 'Wn|Ww|@2 B']:
+        L.append(('cv', p, P2 if p.count('|') == 2 else (3 if q else 4), 0))
+    for p in ['Wwd|@1 S', 'CwN|N', 'Cwd|L', 'WwN|@1 S|N']:
+        L.append(('cv', p, 1 if q else 2, 1))
+    for p in ['Mw1|@1 A', 'Mr1|@1 A', 'Mw1|A', 'Mw1|Mw2|@2 A B', 'Mw1|Mr1|@2 A', 'Mw1|@1 Z A', 'Mw1z|Mw2|@2 B A']:
+        L.append(('muwait', p, P2 if p.count('|') == 2 else (3 if q else 4), 0))
+    for p in ['Mw1d|@1 A', 'Mw1N|N|@1 A']:
+        L.append(('muwait', p, 1 if q else 2, 1))
+    # once-function -> every return
+    for p in ['O|O', 'O|Os', 'Os|Os', 'Oa|Oas', 'O|O|Os', 'O O|Os', 'Os|Oas|Os']:
+        L.append(('once', p, 2 if p.count('|') == 2 else (3 if q else 4), 0 if 's' in p and 'O|' not in p else 1))
+    # notify -> observation; zeroing decrement -> waiter
+    for p in ['--xx:nR|iR', '--xx:nR|wR', '--xx:nR|iC', '--xx:nR|wC', '----:nR|wG', '----:nC|iG|wG', '--xx:nC|iC|wC']:
+        L.append(('note', p, P2 if p.count('|') == 2 else (3 if q else 4), 0))
+    for p in ['1:-|w', '1:-|v', '2:-|-|w', '1:-|n', '1:+ -|-|w', '2:- v|- w']:
+        L.append(('counter', p, P2 if p.count('|') == 2 else (3 if q else 4), 0))
+    for p in ['Wa|na', 'Wac|dc', 'Wab|na|nb', "Wv|@1 S"]:
+        L.append(('waitn', p, P2 if p.count('|') == 2 else (3 if q else 4), 0))
+    return L
+
+def run_C03(tier):
+    J = []
+    for cfg in HB_CFGS:
+        for (fam, p, P, E) in hb_programs(tier):
+            J.append(Job(cfg, fam, p, P, E, ('--hb',)))
+            J.append(Job(cfg, fam, p, P, E, ('--hb', '--sem-hb=off')))
+    return generic('C03', tier, J,
+        'stateless DFS (no state pruning) over schedules with a vector-clock happens-before monitor fed only by the memory_order argument of each instrumented atomic call (C++20 release-sequence rules; no edge for futex, scheduler or CPU); every plain access of client data and of nsync\'s own fields is checked; all three atomic.h flavours; second pass with the semaphore\'s own orders downgraded to relaxed',
+        sample_every=15, extra_cov={'states_note': 'C03 runs are stateless: states counts scheduling decisions reached, not deduplicated states'})
+
+# ---------------------------------------------------------------- C04 .. C11, C13, C14, C16
+def run_C04(tier):
+    J = J_('c-futex', 'cv', progs.cv_c04(tier)) + J_('c-binsem', 'cv', progs.cv_c04('quick')[::3])
+    return generic('C04', tier, J, 'DFS over scheduler and clock choices of the real cv.c / wait.c / sem_wait.c; oracle: accounting of wake-ups by an observer at quiescence (DESIGN.md C04) plus the terminal-state progress rule')
+
+def run_C05(tier):
+    J = J_('c-futex', 'cv', progs.cv_c05(tier)) + J_('c-futex', 'muwait', progs.mw_c05(tier)) + J_('c-binsem', 'cv', progs.cv_c05('quick')[::3]) + J_('c-binsem', 'muwait', progs.mw_c05('quick')[::3])
+    return generic('C05', tier, J, 'DFS over scheduler and clock choices (deadline vs note expiry vs wake-up in every order) of cv.c, mu_wait.c, sem_wait.c, note.c; oracle on every wait return: lock mode, reason vs virtual clock / note state, result 0 iff condition; no expired/cancelled waiter asleep at quiescence')
+
+def run_C06(tier):
+    J = J_('c-futex', 'muwait', progs.mw_c06(tier)) + J_('c-binsem', 'muwait', progs.mw_c06('quick')[::4])
+    return generic('C06', tier, J, 'DFS over scheduler and clock choices of mu.c / mu_wait.c; oracle: obligation rule at quiescence (a waiter whose condition was made true by a section ended with nsync_mu_unlock is not asleep), and inside every condition callback the mutex word shows it held and no other thread is inside a write section')
+
+def run_C07(tier):
+    J = J_('c-futex', 'once', progs.once_programs(tier)) + J_('c-binsem', 'once', progs.once_programs('quick')[::3])
+    return generic('C07', tier, J, 'DFS over scheduler and clock choices of once.c (timer polling driven by virtual clock ticks); oracle after every return: ran exactly once and completed; no blocking once done')
+
+def run_C08(tier):
+    J = J_('c-futex', 'note', progs.note_c08(tier))
+    return generic('C08', tier, J, 'exhaustive enumeration of all trees of <= 4 notes x deadline assignments (sequential), and DFS over schedules of notifiers / pollers / waiters; oracle: per-note observation histories (monotonic, caused), state at quiescence asked through nsync_note_is_notified', sample_every=60)
+
+def run_C09(tier):
+    J = J_('c-futex', 'note', progs.note_c09(tier)) + J_('c-binsem', 'note', progs.note_c09('quick')[::2])
+    return generic('C09', tier, J, 'DFS over schedules of notify / poll / create-child / free on a parent-child-grandchild family; oracle: liveness of every instrumented access and atomic (freed notes are poisoned arena blocks, never reused), progress, adoption (end-state rule)')
+
+def run_C10(tier):
+    J = J_('c-futex', 'counter', progs.counter_programs(tier)) + J_('c-binsem', 'counter', progs.counter_programs('quick')[::2])
+    return generic('C10', tier, J, 'DFS over schedules of add / value / wait; oracle: brute-force linearizability of the returned values against an integer, progress at zero, no blocking after zero was observed')
+
+def run_C11(tier):
+    J = J_('c-futex', 'waitn', progs.waitn_c11(tier)) + J_('c-binsem', 'waitn', progs.waitn_c11('quick')[::2])
+    J += J_('c-futex', 'cv', [t for t in progs.cv_c04('quick') if 'Wn' in t[0] or 'Cn' in t[0]][::2])
+    return generic('C11', tier, J, 'DFS over scheduler and clock choices of wait.c with the note / counter / cv waitable implementations; oracles: returned index is ready, timeout is real, nobody sleeps with a ready object, no registration survives the call (dereferenced in dead frames / freed blocks by the observer, and nsync\'s own free-time assertions), mutex protocol')
+
+def run_C13(tier):
+    J = J_('c-futex', 'refcnt', progs.refcnt_programs(tier)) + J_('c-binsem', 'refcnt', progs.refcnt_programs('quick')[::3])
+    wn = [t for t in progs.waitn_c11(tier)]
+    J += J_('c-futex', 'waitn', wn)
+    J += J_('c-futex', 'cv', [t for t in progs.cv_c05(tier) if any(x in t[0] for x in ('N', 'x', 'e', 'c'))][::2])
+    J += J_('c-futex', 'cv', [t for t in progs.cv_c04('quick') if 'Wn' in t[0]][::2])
+    J += J_('c-futex', 'muwait', [t for t in progs.mw_c05(tier) if 'N' in t[0]])
+    return generic('C13', tier, J, 'DFS over scheduler and clock choices; oracle: the runtime liveness monitor on every instrumented plain access, atomic operation and futex argument: freed arena blocks (poisoned, never reused) and the dead part / whole stack of other fibers')
+
+def run_C14(tier):
+    J = []
+    q = tier == 'quick'
+    for T in ([1, 2] if q else [1, 2, 3]):
+        defs = '-DNSYNC_VERIF_LONG_WAIT_THRESHOLD=%d' % T
+        k = T + 2
+        for v in ['V', 'Vr']:
+            for b in ['L', 'R', 'T']:
+                if v == 'Vr' and b == 'R': continue   # readers never exclude a reader
+                p2 = '%s|%s%d|%s%d' % (v, b, k, b, k)
+                J.append(Job('c-futex', 'starve', p2, 2 if q or T == 3 else 3, 0, (), defs, 'c-futex.t%d' % T))
+                if b != 'T':
+                    p3 = '%s|%s%d|L%d' % (v, b, k, k)
+                    J.append(Job('c-futex', 'starve', p3, 2, 0, (), defs, 'c-futex.t%d' % T))
+            J.append(Job('c-binsem', 'starve', '%s|L%d|L%d' % (v, k, k), 2, 0, (), defs, 'c-binsem.t%d' % T))
+        if not q:
+            J.append(Job('c-futex', 'starve', 'V|L%d|L%d|L%d' % (k, k, k), 1, 0, (), defs, 'c-futex.t%d' % T))
+    return generic('C14', tier, dedupe(J), 'DFS over schedules of a victim locker and 2-3 barging threads with LONG_WAIT_THRESHOLD reduced to 1..3 by the guarded hook; oracle at nsync\'s own acquisition events: once the victim\'s (T+1)-th sleep has begun no call that never slept acquires before the victim', sample_every=5)
+
+def run_C16(tier):
+    q = tier == 'quick'
+    J = []
+    base = ['L|L|dM', 'L|L|L|dM', 'R|R|L|dM', 'L|R|L|dm', 'R|L|dM dM', 'L|L|dM|dM', 'Ww|@1 S|dM', 'Ww|@1 S|dC', 'Ww|Wr|@2 S|dC', 'Ww|Ww|@2 B|dC', 'Wr|L|@1 S|dM', 'Ww|L|@1 S|dc dm', 'Wwd|@1 S|dC', 'Wwd|Ww|@2 S|dM']
+    for p in base:
+        n = p.count('|') + 1
+        J.append(Job('c-futex', 'cv', p, (3 if n <= 3 else 3) if q else 4, 1 if 'd|' in p or 'Wwd' in p else 0))
+        J.append(Job('c-binsem', 'cv', p, 2, 0))
+    for kind in 'mc':
+        for k in range(4):
+            J.append(Job('c-futex', 'debugseq', '%s%d' % (kind, k), 1 if q else 2, 0))
+    return generic('C16', tier, J, 'DFS over schedules of lockers / waiters / wakers with a thread calling the debug-state functions (all mutual-exclusion, progress and wake-up oracles in force); exhaustive n = 0..80 x 0..3 queued waiters x 4 functions against the untruncated reference with exact-size buffers between red zones', sample_every=4)
+
 TABLE = {
+    'C01': run_C01, 'C03': run_C03, 'C04': run_C04, 'C05': run_C05, 'C06': run_C06, 'C07': run_C07, 'C08': run_C08, 'C09': run_C09, 'C10': run_C10, 'C11': run_C11, 'C13': run_C13, 'C14': run_C14, 'C16': run_C16,
     'C02': run_C02,
     'C12': run_C12,
 }
